@@ -27,6 +27,7 @@ func init() {
 		ID:    "C15",
 		Title: "Targeters hand out each target exactly once under concurrent use",
 		Explanation: "DECIDED (lockset over captured state, all schedules): for every constructor in lib returning a Targeter built from a function literal, every captured variable that the closure (or an in-package helper it calls) writes, or on which it calls a method of a not-goroutine-safe type (*bufio.Reader, *bufio.Scanner, peekingScanner), is accessed only while a captured sync.Mutex is held (explicit Unlock on all paths or deferred) or through sync/atomic; read-only captures have no store; no buffer alias escapes the lock (line data comes from copying APIs ReadBytes/ReadString/Scanner.Text, never ReadSlice/ReadLine/Peek/Scanner.Bytes); the static targeter advances its counter with exactly one atomic read-modify-write per call and indexes with that call's result modulo len of the same slice, copying the Target value. " +
+			"no-shared-defaults (C14's borrow analysis, also through variadic merge helpers): no target handed out aliases the default header value slices or the default body, so concurrent callers never append into one backing array; the static rotation counts atomic operations over the closure and the cursor helpers it calls. " +
 			"NOT DECIDED: the multiset equality itself (implied by these plus C14); race-detector runs are another family.",
 		Assumptions: []string{"sync.Mutex and sync/atomic semantics"},
 		MinObs:      6,
@@ -74,6 +75,13 @@ func boundParamCells(ctor, cl *ssa.Function, pred func(types.Type) bool) []*ssa.
 }
 
 func runC14(c *Ctx) {
+	c14Defaults(c, true)
+	c14Rest(c)
+}
+
+// c14Defaults: borrow analysis of the default header/body (shared with C15: a target that aliases
+// the defaults' backing array is written by every concurrent caller) and, withOrder, the merge order.
+func c14Defaults(c *Ctx, withOrder bool) {
 	tcs := targeterClosures(c)
 	const rBorrow = "the default header value slices and the default body are borrowed: nothing derived from them is appended onto, stored through, sorted, or reachable via the target's header map by a later append; a copy (append onto a fresh/own slice with the defaults as the variadic operand, make+copy, slices.Clone) clears the taint"
 	const rOrder = "default header values are written into the target's header before the target's own values on every path; the default body is assigned first and overwritten only under 'the target has its own body'"
@@ -160,6 +168,7 @@ func runC14(c *Ctx) {
 		type hdrEvent struct {
 			at           ssa.Instruction
 			fromDefaults bool
+			ord          int // position among the sources of one helper call
 		}
 		var events []hdrEvent
 		eachInstr(cl, func(i ssa.Instruction) {
@@ -168,7 +177,7 @@ func runC14(c *Ctx) {
 				if !isNamedType(x.Map.Type(), "net/http", "Header") || isDefaultsMap(x.Map) {
 					return
 				}
-				events = append(events, hdrEvent{x, flowsFrom(x.Value, isSource)})
+				events = append(events, hdrEvent{x, flowsFrom(x.Value, isSource), 0})
 			case *ssa.Call:
 				h := x.Call.StaticCallee()
 				if h == nil || h.Pkg != cl.Pkg || len(h.Blocks) == 0 {
@@ -186,34 +195,90 @@ func runC14(c *Ctx) {
 				if !writes {
 					return
 				}
-				fromDef := false
+				// header-typed source arguments in call order; a variadic `srcs ...http.Header` is unpacked
+				type srcArg struct {
+					v     ssa.Value
+					param *ssa.Parameter
+				}
+				var srcs []srcArg
 				for k, arg := range x.Call.Args {
-					if isDefaultsMap(arg) && k < len(h.Params) {
-						fromDef = true
-						// the helper must treat what it ranges out of that parameter as borrowed too
-						p := h.Params[k]
-						sub := analyzeBorrow(h, func(v ssa.Value) bool {
-							if ex, ok := v.(*ssa.Extract); ok && ex.Index == 2 {
-								if nx, ok := ex.Tuple.(*ssa.Next); ok {
-									if rg, ok := nx.Iter.(*ssa.Range); ok && rg.X == ssa.Value(p) {
-										return true
-									}
-								}
+					if k >= len(h.Params) {
+						break
+					}
+					p := h.Params[k]
+					isDst := false
+					eachInstr(h, func(j ssa.Instruction) {
+						if mu, ok := j.(*ssa.MapUpdate); ok && mu.Map == ssa.Value(p) {
+							isDst = true
+						}
+					})
+					if isDst {
+						continue
+					}
+					if isNamedType(arg.Type(), "net/http", "Header") {
+						srcs = append(srcs, srcArg{arg, p})
+					} else if sl, isSl := arg.Type().Underlying().(*types.Slice); isSl && isNamedType(sl.Elem(), "net/http", "Header") {
+						if els, okEl := sliceElems(arg); okEl {
+							for _, e := range els {
+								srcs = append(srcs, srcArg{e, p})
 							}
-							if lk, ok := v.(*ssa.Lookup); ok && !lk.CommaOk && lk.X == ssa.Value(p) {
-								return true
-							}
-							return false
-						}, 1)
-						if len(sub.Sinks) > 0 {
-							c.Fail(fmt.Sprintf("borrow:%s:%s", shortFn(cl), shortFn(h)), rBorrow, sub.Sinks[0].What+" (in helper "+shortFn(h)+"): decoding a later target can change an earlier target or the defaults", c.at(sub.Sinks[0].Instr))
 						}
 					}
 				}
-				events = append(events, hdrEvent{x, fromDef})
+				fromDef := false
+				checked := map[*ssa.Parameter]bool{}
+				for _, sa := range srcs {
+					if !isDefaultsMap(sa.v) {
+						continue
+					}
+					fromDef = true
+					if checked[sa.param] {
+						continue
+					}
+					checked[sa.param] = true
+					// the helper must treat what it ranges out of that parameter as borrowed too
+					p := sa.param
+					fromParam := func(m ssa.Value) bool {
+						if m == ssa.Value(p) {
+							return true
+						}
+						if ld, ok := isLoad(m); ok {
+							if ia, ok := ld.X.(*ssa.IndexAddr); ok && ia.X == ssa.Value(p) {
+								return true // element of the variadic slice
+							}
+						}
+						return false
+					}
+					sub := analyzeBorrow(h, func(v ssa.Value) bool {
+						if ex, ok := v.(*ssa.Extract); ok && ex.Index == 2 {
+							if nx, ok := ex.Tuple.(*ssa.Next); ok {
+								if rg, ok := nx.Iter.(*ssa.Range); ok && fromParam(rg.X) {
+									return true
+								}
+							}
+						}
+						if lk, ok := v.(*ssa.Lookup); ok && !lk.CommaOk && fromParam(lk.X) {
+							return true
+						}
+						return false
+					}, 1)
+					if len(sub.Sinks) > 0 {
+						c.Fail(fmt.Sprintf("borrow:%s:%s", shortFn(cl), shortFn(h)), rBorrow, sub.Sinks[0].What+" (in helper "+shortFn(h)+"): decoding a later target can change an earlier target or the defaults", c.at(sub.Sinks[0].Instr))
+					}
+				}
+				if len(srcs) <= 1 {
+					events = append(events, hdrEvent{x, fromDef, 0})
+				} else {
+					for k, sa := range srcs {
+						events = append(events, hdrEvent{x, isDefaultsMap(sa.v), k})
+					}
+				}
 			}
 		})
 		keyO := "merge-order:" + shortFn(cl) + ":header"
+		if !withOrder {
+			continue
+		}
 		if len(hdrCells) > 0 {
 			nDef, nOwn := 0, 0
 			ok := true
@@ -237,7 +302,12 @@ func runC14(c *Ctx) {
 						continue
 					}
 					dh := loopHeaderOf(d.at.Block())
-					if dh != nil {
+					if d.at == o.at {
+						// one helper call merging several sources in argument order
+						if d.ord > o.ord {
+							ok, why = false, "the helper call lists the target's own header before the defaults: defaults must come first"
+						}
+					} else if dh != nil {
 						// every path to an own write has finished the defaults loop
 						if !dh.Dominates(o.at.Block()) || loopHeaderOf(o.at.Block()) == dh {
 							ok, why = false, "the target's own header values can be written before (or interleaved with) the defaults: defaults must come first"
@@ -298,7 +368,9 @@ func runC14(c *Ctx) {
 	if n < 2 {
 		c.Fail("borrow:lib.targeters", rBorrow, fmt.Sprintf("only %d targeter closures with defaults found; expected the http and JSON targeters", n))
 	}
+}
 
+func c14Rest(c *Ctx) {
 	// header case in parsers
 	c06HeaderCase(c)
 
@@ -779,19 +851,21 @@ func runC15(c *Ctx) {
 		c.Check(len(aliasSites) == 0, "no-buffer-alias:"+shortFn(cl), rAlias, "only copying reads", "a buffer-aliasing read is used: the bytes are overwritten when the next caller reads", c.atsOr(aliasSites, cl)...)
 
 		// static rotation
-		if len(atomicCells) > 0 {
+		if len(atomicCells) > 0 || ctor.Name() == "NewStaticTargeter" {
 			const rRot = "the static targeter advances its counter with exactly one atomic read-modify-write per call and indexes the target slice with that call's result modulo len of the same slice, copying the Target value"
 			keyR := "atomic-rotation:" + shortFn(cl)
 			var ops []*ssa.Call
-			eachInstr(cl, func(i ssa.Instruction) {
+			// the cursor may live in a helper type (rr.next()): count over the closure and what it calls
+			eachInstrRegion(cl, func(i ssa.Instruction) {
 				if call, ok := i.(*ssa.Call); ok && strings.HasPrefix(callName(&call.Call), "sync/atomic.") {
 					ops = append(ops, call)
 				}
 			})
-			ok := len(ops) == 1 && strings.HasPrefix(callName(&ops[0].Call), "sync/atomic.Add")
+			ok := len(ops) == 1 && strings.Contains(callName(&ops[0].Call), "Add")
 			why := fmt.Sprintf("%d atomic operations on the counter per call (load/compare/store sequences are not atomic as a whole): want exactly one atomic Add", len(ops))
 			if ok {
-				if d, isD := constInt(ops[0].Call.Args[1]); !isD || d != 1 {
+				args := ops[0].Call.Args
+				if d, isD := constInt(args[len(args)-1]); !isD || d != 1 {
 					ok, why = false, "the counter does not advance by one"
 				}
 			}
@@ -803,14 +877,27 @@ func runC15(c *Ctx) {
 					if !isIA {
 						return
 					}
-					rem, isRem := stripConv(ia.Index).(*ssa.BinOp)
-					if !isRem || rem.Op != token.REM || stripConv(rem.X) != ssa.Value(ops[0]) {
-						return
+					direct := false
+					if rem, isRem := stripConv(ia.Index).(*ssa.BinOp); isRem && rem.Op == token.REM && stripConv(rem.X) == ssa.Value(ops[0]) {
+						direct = lenOf(stripConv(rem.Y), func(v ssa.Value) bool {
+							return sameSliceValue(v, ia.X) || loadedCell(v) != nil && loadedCell(v) == loadedCell(ia.X)
+						})
 					}
-					if !lenOf(stripConv(rem.Y), func(v ssa.Value) bool {
-						return sameSliceValue(v, ia.X) || loadedCell(v) != nil && loadedCell(v) == loadedCell(ia.X)
-					}) {
-						return
+					if !direct {
+						// helper form: the index is a helper's result that derives from the one Add, reduced by a modulo
+						fromAdd, viaRem := false, false
+						flowsFrom(ia.Index, func(v ssa.Value) bool {
+							if v == ssa.Value(ops[0]) {
+								fromAdd = true
+							}
+							if bo, isBo := v.(*ssa.BinOp); isBo && bo.Op == token.REM {
+								viaRem = true
+							}
+							return false
+						})
+						if ops[0].Parent() == cl || !fromAdd || !viaRem {
+							return
+						}
 					}
 					for _, r := range refs(ia) {
 						if ld, isL := r.(*ssa.UnOp); isL {
@@ -832,6 +919,8 @@ func runC15(c *Ctx) {
 	}
 	// resolver rotation shares the idiom (anchor of C15 and C18)
 	c15ResolverRotation(c)
+	// no target may alias the shared defaults (C14's borrow rule): concurrent callers would write one backing array
+	c14Defaults(c, false)
 }
 
 func instrsOf(cs []*ssa.Call) []ssa.Instruction {
